@@ -51,7 +51,8 @@ def instantiate_template_args(typename: parser.Typename,
     for instantiation in typename.instantiations:
         instantiate_template_args(instantiation, template_typenames,
                                   instantiations, cpp_typename)
-        if instantiation.name in template_typenames:
+        if instantiation.name in template_typenames and \
+                instantiation.namespaces in ([], ['This']):
             template_idx = template_typenames.index(instantiation.name)
             instantiation.name = instantiations[template_idx]
         elif instantiation.namespaces and \
